@@ -1,7 +1,7 @@
 // c15 replays the terminated behaviours of spec/Generate.tla on the real generatecmd.Run of the
 // repository under test (in-process; the check builds this harness with -race).
 //
-//	c15 run <cases.ndjson> <workdir> <seed> <reps> <trace-out> [corrupt]
+//	c15 run <cases.ndjson> <workdir> <seed> <reps> <trace-out> <max-hooked-runs> [corrupt]
 //
 // Each case is a tree (files with abstract contents and modification-time classes), the flags, and the
 // trees / exit status the specification predicts after the first and after the second run. The harness
@@ -258,13 +258,17 @@ type traceLine map[string]any
 
 func main() {
 	if len(os.Args) < 7 || os.Args[1] != "run" {
-		vhlib.Fatal("usage: c15 run <cases.ndjson> <workdir> <seed> <reps> <trace-out> [corrupt]")
+		vhlib.Fatal("usage: c15 run <cases.ndjson> <workdir> <seed> <reps> <trace-out> <max-hooked-runs> [corrupt]")
 	}
 	casesPath, work := os.Args[2], os.Args[3]
 	seed, _ := strconv.ParseInt(os.Args[4], 10, 64)
 	reps, _ := strconv.Atoi(os.Args[5])
 	tracePath := os.Args[6]
-	corrupt := len(os.Args) > 7 && os.Args[7] == "corrupt"
+	corrupt := len(os.Args) > 8 && os.Args[8] == "corrupt"
+	maxHooked := 0
+	if len(os.Args) > 7 {
+		maxHooked, _ = strconv.Atoi(os.Args[7])
+	}
 
 	// the concrete stand-ins must be what the specification says they are
 	if _, err := parser.ParseString(templSource("unparsable", "x.templ")); err == nil {
@@ -301,17 +305,34 @@ func main() {
 
 	workers := []int{1, 2, 8}
 	type job struct {
-		c   *tcase
-		w   int
-		rep int
-		n   int
+		c      *tcase
+		w      int
+		rep    int
+		n      int
+		hooked bool // run in the sequential phase with the hook installed (recording + perturbation)
 	}
-	var jobs []job
+	// phase 1: every case x worker count, 8 runs at a time, no hook.
+	// phase 2 (hook present): a seeded sample of (case, W in {2, 8}) x reps, sequentially, hook installed:
+	// events recorded for trace validation, schedule perturbed at the hook points.
+	var jobs, hooked []job
 	for _, c := range cases {
 		for _, w := range workers {
-			for r := 0; r < reps; r++ {
-				jobs = append(jobs, job{c, w, r, len(jobs)})
+			jobs = append(jobs, job{c: c, w: w, n: len(jobs)})
+		}
+	}
+	if hooksPresent {
+		srng := rand.New(rand.NewSource(seed))
+		for r := 1; r <= reps; r++ {
+			for _, c := range cases {
+				hooked = append(hooked, job{c: c, w: workers[1+srng.Intn(2)], rep: r, hooked: true})
 			}
+		}
+		srng.Shuffle(len(hooked), func(i, j int) { hooked[i], hooked[j] = hooked[j], hooked[i] })
+		if maxHooked > 0 && len(hooked) > maxHooked {
+			hooked = hooked[:maxHooked]
+		}
+		for i := range hooked {
+			hooked[i].n = i
 		}
 	}
 	var mu sync.Mutex
@@ -326,139 +347,144 @@ func main() {
 		}
 		defer traceOut.Close()
 	}
-	// traced runs are spread evenly over the jobs
+	// traced runs are spread evenly over the hooked jobs
 	maxTraced := 500
-	traceEvery := (len(jobs) + maxTraced - 1) / maxTraced
+	traceEvery := (len(hooked) + maxTraced - 1) / maxTraced
 	if traceEvery < 1 {
 		traceEvery = 1
 	}
 	samples := 0
 
-	// with hooks the runs are sequential (the hook is one package-level variable); without, 8 at a time
-	par := 8
-	if hooksPresent {
-		par = 1
-	}
-	jobCh := make(chan job)
-	var wg sync.WaitGroup
-	for p := 0; p < par; p++ {
-		wg.Add(1)
-		go func() {
-			defer wg.Done()
-			for j := range jobCh {
-				c := j.c
-				root := filepath.Join(work, fmt.Sprintf("case%05d-w%d-r%d", c.ID, j.w, j.rep), "root")
-				if err := os.MkdirAll(root, 0o755); err != nil {
-					vhlib.Fatal("%v", err)
-				}
-				initial := map[string]file{}
-				for _, f := range c.Files {
-					p := filepath.Join(root, f.rel())
-					if err := os.MkdirAll(filepath.Dir(p), 0o755); err != nil {
+	runJobs := func(js []job, par int) {
+		jobCh := make(chan job)
+		var wg sync.WaitGroup
+		for p := 0; p < par; p++ {
+			wg.Add(1)
+			go func() {
+				defer wg.Done()
+				for j := range jobCh {
+					c := j.c
+					root := filepath.Join(work, fmt.Sprintf("case%05d-w%d-r%d-%d", c.ID, j.w, j.rep, j.n), "root")
+					if err := os.MkdirAll(root, 0o755); err != nil {
 						vhlib.Fatal("%v", err)
 					}
-					if err := os.WriteFile(p, content(f), 0o644); err != nil {
-						vhlib.Fatal("%v", err)
+					initial := map[string]file{}
+					for _, f := range c.Files {
+						p := filepath.Join(root, f.rel())
+						if err := os.MkdirAll(filepath.Dir(p), 0o755); err != nil {
+							vhlib.Fatal("%v", err)
+						}
+						if err := os.WriteFile(p, content(f), 0o644); err != nil {
+							vhlib.Fatal("%v", err)
+						}
+						if err := os.Chtimes(p, mtime(f.M), mtime(f.M)); err != nil {
+							vhlib.Fatal("%v", err)
+						}
+						initial[f.rel()] = f
 					}
-					if err := os.Chtimes(p, mtime(f.M), mtime(f.M)); err != nil {
-						vhlib.Fatal("%v", err)
+					soloOf := func(rel string) []byte {
+						trel := strings.TrimSuffix(rel, "_templ.go") + ".templ"
+						src, err := os.ReadFile(filepath.Join(root, trel))
+						if err != nil {
+							vhlib.Fatal("no template for generated file %s: %v", rel, err)
+						}
+						out, err := solo(string(src), filepath.ToSlash(trel), c.Flags.Ver)
+						if err != nil {
+							vhlib.Fatal("solo generation of %s failed: %v", trel, err)
+						}
+						return out
 					}
-					initial[f.rel()] = f
-				}
-				soloOf := func(rel string) []byte {
-					trel := strings.TrimSuffix(rel, "_templ.go") + ".templ"
-					src, err := os.ReadFile(filepath.Join(root, trel))
-					if err != nil {
-						vhlib.Fatal("no template for generated file %s: %v", rel, err)
-					}
-					out, err := solo(string(src), filepath.ToSlash(trel), c.Flags.Ver)
-					if err != nil {
-						vhlib.Fatal("solo generation of %s failed: %v", trel, err)
-					}
-					return out
-				}
-				args := generatecmd.Arguments{Path: root, WorkerCount: j.w, KeepOrphanedFiles: c.Flags.Keep, Lazy: c.Flags.Lazy, IncludeVersion: c.Flags.Ver}
-				var fl []failure
-				var trace []traceLine
-				record := hooksPresent && traceOut != nil && j.n%traceEvery == 0
-				rng := rand.New(rand.NewSource(seed*1000003 + int64(c.ID)*31 + int64(j.w)*7 + int64(j.rep)))
-				for run := 1; run <= 2; run++ {
-					if record {
-						trace = append(trace, traceLine{"ev": "reset", "case": c.ID, "run": run, "w": j.w, "flags": c.Flags, "files": treeOf(root)})
-					}
-					stop := installHook(root, rng, j.rep > 0)
-					err := generatecmd.Run(context.Background(), logger, args)
-					evs := stop()
-					want, status, nerr := c.Final1, c.Status1, c.Errors1
-					if run == 2 {
-						want, status, nerr = c.Final2, c.Status2, c.Errors2
-					}
-					gotStatus, gotErrs := "ok", 0
-					if err != nil {
-						gotStatus = "fail"
-						if _, e := fmt.Sscanf(err.Error(), "generation completed with %d errors", &gotErrs); e != nil {
-							gotErrs = -1
+					args := generatecmd.Arguments{Path: root, WorkerCount: j.w, KeepOrphanedFiles: c.Flags.Keep, Lazy: c.Flags.Lazy, IncludeVersion: c.Flags.Ver}
+					var fl []failure
+					var trace []traceLine
+					record := j.hooked && traceOut != nil && j.n%traceEvery == 0
+					rng := rand.New(rand.NewSource(seed*1000003 + int64(c.ID)*31 + int64(j.w)*7 + int64(j.rep)))
+					for run := 1; run <= 2; run++ {
+						if record {
+							trace = append(trace, traceLine{"ev": "reset", "case": c.ID, "run": run, "w": j.w, "flags": c.Flags, "files": treeOf(root)})
+						}
+						var stop func() []hookEvent
+						if j.hooked {
+							stop = installHook(root, rng, true)
+						}
+						err := generatecmd.Run(context.Background(), logger, args)
+						var evs []hookEvent
+						if j.hooked {
+							evs = stop()
+						}
+						want, status, nerr := c.Final1, c.Status1, c.Errors1
+						if run == 2 {
+							want, status, nerr = c.Final2, c.Status2, c.Errors2
+						}
+						gotStatus, gotErrs := "ok", 0
+						if err != nil {
+							gotStatus = "fail"
+							if _, e := fmt.Sscanf(err.Error(), "generation completed with %d errors", &gotErrs); e != nil {
+								gotErrs = -1
+							}
+						}
+						if record {
+							for _, e := range evs {
+								trace = append(trace, traceLine{"ev": e.Ev, "dir": e.Dir, "name": e.Name})
+							}
+							trace = append(trace, traceLine{"ev": "exit", "status": gotStatus, "errors": gotErrs})
+						}
+						if gotStatus != status || (gotErrs != nerr && gotErrs >= 0) {
+							fl = append(fl, failure{"ExitStatusIffSomeFileFailed", "exit status / error count differs from the number of files that failed",
+								map[string]any{"run": run, "got": fmt.Sprint(err), "want_status": status, "want_errors": nerr}})
+						}
+						got, serr := snap(root)
+						if serr != nil {
+							vhlib.Fatal("%v", serr)
+						}
+						// after the second run the specification's tree has the same files with the same contents
+						fl = append(fl, compare(c, run, want, initial, got, soloOf)...)
+						if len(fl) > 0 {
+							break
 						}
 					}
-					if record {
-						for _, e := range evs {
-							trace = append(trace, traceLine{"ev": e.Ev, "dir": e.Dir, "name": e.Name})
+					mu.Lock()
+					runs++
+					if record && len(fl) == 0 {
+						traced++
+						for _, l := range trace {
+							b, _ := json.Marshal(l)
+							traceOut.Write(b)
+							traceOut.Write([]byte("\n"))
 						}
-						trace = append(trace, traceLine{"ev": "exit", "status": gotStatus, "errors": gotErrs})
 					}
-					if gotStatus != status || (gotErrs != nerr && gotErrs >= 0) {
-						fl = append(fl, failure{"ExitStatusIffSomeFileFailed", "exit status / error count differs from the number of files that failed",
-							map[string]any{"run": run, "got": fmt.Sprint(err), "want_status": status, "want_errors": nerr}})
-					}
-					got, serr := snap(root)
-					if serr != nil {
-						vhlib.Fatal("%v", serr)
-					}
-					// after the second run the specification's tree has the same files with the same contents
-					fl = append(fl, compare(c, run, want, initial, got, soloOf)...)
 					if len(fl) > 0 {
-						break
-					}
-				}
-				mu.Lock()
-				runs++
-				if record && len(fl) == 0 {
-					traced++
-					for _, l := range trace {
-						b, _ := json.Marshal(l)
-						traceOut.Write(b)
-						traceOut.Write([]byte("\n"))
-					}
-				}
-				if len(fl) > 0 {
-					fails++
-					seen := map[string]bool{}
-					for _, f := range fl {
-						if seen[f.Sig] {
-							continue
+						fails++
+						seen := map[string]bool{}
+						for _, f := range fl {
+							if seen[f.Sig] {
+								continue
+							}
+							seen[f.Sig] = true
+							sigCount[f.Sig]++
+							f.Info["tree"] = c.Files
+							f.Info["flags"] = c.Flags
+							f.Info["workers"] = j.w
+							vhlib.Fail(f.Sig, f.What, f.Info)
 						}
-						seen[f.Sig] = true
-						sigCount[f.Sig]++
-						f.Info["tree"] = c.Files
-						f.Info["flags"] = c.Flags
-						f.Info["workers"] = j.w
-						vhlib.Fail(f.Sig, f.What, f.Info)
+					} else if samples < 4 && len(c.Files) >= 3 && c.ID%37 == 0 {
+						samples++
+						vhlib.Sample(map[string]any{"tree": c.Files, "flags": c.Flags, "workers": j.w, "status": c.Status1, "final": c.Final1})
 					}
-				} else if samples < 4 && len(c.Files) >= 3 && c.ID%37 == 0 {
-					samples++
-					vhlib.Sample(map[string]any{"tree": c.Files, "flags": c.Flags, "workers": j.w, "status": c.Status1, "final": c.Final1})
+					mu.Unlock()
+					os.RemoveAll(filepath.Dir(root))
 				}
-				mu.Unlock()
-				os.RemoveAll(filepath.Dir(root))
-			}
-		}()
+			}()
+		}
+		for _, j := range js {
+			jobCh <- j
+		}
+		close(jobCh)
+		wg.Wait()
 	}
-	for _, j := range jobs {
-		jobCh <- j
-	}
-	close(jobCh)
-	wg.Wait()
-	vhlib.Summary(map[string]any{"cases": len(cases), "runs": runs, "jobs": len(jobs), "fails": fails, "worker_counts": workers, "reps": reps,
+	runJobs(jobs, 8)
+	runJobs(hooked, 1)
+	vhlib.Summary(map[string]any{"cases": len(cases), "runs": runs, "jobs": len(jobs) + len(hooked), "hooked_runs": len(hooked), "fails": fails, "worker_counts": workers, "reps": reps,
 		"hooks": hooksPresent, "traced_runs": traced, "hook_events": hookEventCount(), "perturbations": perturbCount(), "signatures": sigCount})
 }
 
